@@ -1,4 +1,5 @@
 """C09 — handlers receive exactly what the client sent."""
+import json
 import re
 
 from .lib import (PLUMBING, callee_allow, callers, closure_args_of_call, lit_strs, operand_local)
@@ -15,7 +16,8 @@ LEVEL_TEXT = ("Decides on the type-checked MIR of the current tree: (R1) every d
               "(R3) the one RequestContext aggregate is built from this invocation's request, peer address, request id and lookup result, RequestInfo::new copies method/uri/version/headers/"
               "remote_addr from its own arguments, each accessor returns its own field, the peer address flows per connection from accept() through ServerRequestHandler to http_request_handle, "
               "and both handler invocations receive that context and that request; (R4) neither crate has a `static mut` or an interior-mutable static on the server path, and the state shared "
-              "between requests (DropshotState and everything it owns, the two hyper service structs, RequestContext) has no interior-mutable field other than the reviewed table entries; "
+              "between requests (DropshotState and everything it owns, the two hyper service structs, RequestContext) has no interior-mutable field other than the reviewed table entries "
+              "(walk over the field types of crate-defined ADTs, transitively; third-party types such as slog::Logger or waitgroup::Worker and the consumer's own context type are not opened); "
               "(R5) the multipart boundary comes from multer::parse_boundary applied to this request's Content-Type header, with no substring surgery, and the multipart stream is this request's body; "
               "(R6) each HttpHandlerFunc impl passes rqctx and the tuple components to the user function in declared order. "
               "Not decided: value fidelity inside serde, serde_json, serde_urlencoded, percent-encoding, multer and hyper's de-framing; schedules are not explored — the argument for "
@@ -92,7 +94,7 @@ def _from_params(want):
 
 # ------------------------------------------------------------------------------------------------ R1
 def r1_decoder_inputs(ctx):
-    R = ctx.rule("C09.R1", "every decoder is fed this request's data through value-preserving operations only, and every extractor wraps exactly its decoder's output", floor=26)
+    R = ctx.rule("C09.R1", "every decoder is fed this request's data through value-preserving operations only, and every extractor wraps exactly its decoder's output", floor=29)
     ds = ctx.ds
     # ---- path
     pimpl = [f for i, f in impl_fns(ds, r"^extractor::common::SharedExtractor$", "from_request") if "path::Path" in i["self"]]
@@ -266,7 +268,7 @@ STRKINDS = ["str", "string", "identifier", "any", "ignored_any"]
 
 def r2_primitive_table(ctx):
     R = ctx.rule("C09.R2", "in from_map each deserialize_<T> parses the raw value as T and passes the parsed value to visit_<T> (same T); string kinds pass as_value() to visit_str "
-                 "unmodified; MapValue::as_value returns the stored string", floor=19)
+                 "unmodified; MapValue::as_value returns the stored string", floor=24)
     ds = ctx.ds
     meths = {}
     for i in ds.impls:
@@ -357,7 +359,7 @@ def r2_primitive_table(ctx):
 # ------------------------------------------------------------------------------------------------ R3
 def r3_request_context(ctx):
     R = ctx.rule("C09.R3", "the per-request context is built from this invocation's request, peer address, request id and lookup result; the peer address flows per connection "
-                 "from accept() to the context; both handler invocations get that context and that request", floor=22)
+                 "from accept() to the context; both handler invocations get that context and that request", floor=38)
     ds = ctx.ds
     top = ctx.need_fn(ds, R, r"^server::http_request_handle$")
     hb = ds.body_of(top)
@@ -488,7 +490,7 @@ def r3_request_context(ctx):
                 pn = _names(f).get("remote_addr", [2])
                 ctx.check(R, "service:stores-its-argument", sl.params() == pn and not sl.callees, "ServerRequestHandler.remote_addr <- params %s" % sl.params(), (f, b))
     mk = callers(ds, r"ServerConnectionHandler::<C>::make_http_request_handler$")
-    ctx.check(R, "service:one-handler-per-accepted-connection", len(mk) == 2, "make_http_request_handler call sites: %d (HTTP and HTTPS arms)" % len(mk), None)
+    ctx.check(R, "service:one-handler-per-accepted-connection", len(mk) >= 1, "make_http_request_handler call sites: %d (one per accept arm)" % len(mk), None)
     for f, bb, t in mk:
         s = f.slice(t["args"][1])
         ok = (s.has_call(r"Acceptor::accept$") or s.has_call(r"remote_addr$|peer_addr$")) and not s.reads_field("local_addr")
@@ -513,7 +515,7 @@ STATIC_OK = {
 
 def r4_no_shared_channel(ctx):
     R = ctx.rule("C09.R4", "no `static mut`, no interior-mutable static on the server path, and no interior-mutable field in the state shared between requests "
-                 "other than the reviewed entries", floor=8)
+                 "other than the reviewed entries", floor=12)
     ds, ep = ctx.ds, ctx.ep
     for facts in (ds, ep):
         muts = [s["id"] for s in facts.statics if s.get("mut")]
@@ -583,7 +585,7 @@ def r4_no_shared_channel(ctx):
 # ------------------------------------------------------------------------------------------------ R5
 def r5_multipart_boundary(ctx):
     R = ctx.rule("C09.R5", "the boundary given to multer::Multipart comes from multer::parse_boundary (or mime::Mime::get_param) applied to this request's Content-Type header, "
-                 "with no substring operation; the multipart stream is this request's body", floor=4)
+                 "with no substring operation; the multipart stream is this request's body", floor=5)
     ds = ctx.ds
     sites = callers(ds, r"multer::Multipart::<'r>::(new|with_constraints)$|multer::Multipart::(new|with_constraints)$")
     ctx.check(R, "multipart-sites", len(sites) >= 1, "multer::Multipart constructor sites: %d" % len(sites), None, nontrivial=False)
@@ -648,8 +650,7 @@ def r6_positional_arguments(ctx):
             else:
                 flds = set()
                 for p in s.places:
-                    import json as _json
-                    pl = _json.loads(p)
+                    pl = json.loads(p)
                     fs = [e["f"] for e in pl["p"] if isinstance(e, dict) and "f" in e]
                     if pl["l"] != 1 and fs:
                         flds.add(fs[-1])
